@@ -559,12 +559,13 @@ class ProgramEnv:
         if ss.get("doc"):
             impl.__doc__ = ss["doc"]
 
+        label = ss.get("label")
         if ss.get("shared_fn"):
-            w = pt.Subroutine(TT[ss["ret"]])(SHARED_FNS[ss["shared_fn"]])
+            w = pt.Subroutine(TT[ss["ret"]], name=label)(SHARED_FNS[ss["shared_fn"]])
         elif deco == "sub":
-            w = pt.Subroutine(TT[ss["ret"]])(impl)
+            w = pt.Subroutine(TT[ss["ret"]], name=label)(impl)
         elif deco == "abi":
-            w = pt.ABIReturnSubroutine(impl)
+            w = pt.ABIReturnSubroutine(impl, overriding_name=label) if label else pt.ABIReturnSubroutine(impl)
         else:
             raise KeyError(deco)
         self.subs[k] = w
